@@ -260,14 +260,21 @@ def plans(tier, seed):
         bounds = {"shapes": "(n,m)<=(3,3): c<=1 with 8 core variants; base+uniform configurations with 38 variants",
                   "orders": 3, "vectors": "2 element-distinct base vectors", "palette": pal}
     else:
-        a = [(lab, s) for _, lab, s in all_specs(3, 4, 1, pal)]
+        a0 = [(lab, s) for _, lab, s in all_specs(3, 4, 0, pal)]
+        a1 = [(lab, s) for _, lab, s in all_specs(3, 4, 1, pal) if lab.startswith("dev:")]
         b = [(lab, s) for _, lab, s in all_specs(4, 4, 0, pal) if s.n == 4]
         h = [(f"harness:{k}", s) for k, s in harness_specs(pal).items()]
-        jobs = [({"pset": 0, "d": 0, "variants": variant_sets("thorough")}, a + h),
-                ({"pset": 1, "d": 0, "variants": variant_sets("quick")}, b),
+        core = [("SX", 0, True, False, False, 0), ("SX", 1, True, True, False, 0), ("SX", 2, True, False, False, 0),
+                ("MX", 2, False, True, False, 0), ("SX", 1, False, False, True, 0), ("SX", 0, False, False, False, 1),
+                ("MX", 1, True, False, False, 1), ("SX", 3, False, False, False, 0), ("MX", 0, True, False, True, 2)]
+        jobs = [({"pset": 0, "d": 0, "variants": variant_sets("thorough")}, a0 + h),
+                ({"pset": 0, "d": 0, "variants": (variant_sets("quick")[0], core[1:4])}, a1),
+                ({"pset": 1, "d": 0, "variants": (core, core[1:3])}, b),
                 ({"pset": 0, "d": 1, "variants": variant_sets("quick")}, h)]
-        bounds = {"shapes": "(3,4) c<=1 + harness, all 48 variants on the default order and 24 on two other orders; 4-node "
-                            "shapes (4,4)", "palette": pal}
+        bounds = {"shapes": "(3,4) base+uniform + harness: all variants (2 symbol types x 3 levels x more_out x parameters x "
+                            "positivity-init, alias levels, 2 re-step histories) on the default order and a reduced set on two "
+                            "other orders; (3,4) single-element deviations with 38 variants; 4-node shapes (4,4) with 9 core variants",
+                  "palette": pal}
     return jobs, bounds
 
 
